@@ -217,7 +217,17 @@ def reachable_labels(which):
         for x in un:
             for r in G.apply_unary_rules(x, un):
                 got.add((r.op_string, r.op_symbol))
-        _REACH[which] = (b, sorted(got) or u)
+        if not b:
+            # no label is written as a literal in the grammar module: take the labels the rule functions actually emit on the shipped seen-rule pairs
+            dyn = set()
+            for a_, b_ in T.jsonnet_table(f'seen_rules.{which}.jsonnet', 'seen_rules')[:3000]:
+                try:
+                    for r in G.apply_binary_rules(Category.parse(a_), Category.parse(b_)):
+                        dyn.add((r.op_string, r.op_symbol))
+                except Exception:       # noqa
+                    pass
+            b = sorted(dyn)
+        _REACH[which] = (b or [('unk', '<unk>')], sorted(got) or u or [('lex', '<un>')])
     return _REACH[which]
 
 
